@@ -211,6 +211,11 @@ type op struct {
 	next      *op
 	second    bool
 	viaResult bool
+	// foc: the finisher is FirstOrCreate (with Attrs / Assign); assoc: an association-mode call
+	foc   *focOp
+	assoc *assocOp
+	// noTable: the chain does not start with db.Table(name): the table comes from the model's schema
+	noTable bool
 }
 
 // ---- generator ----------------------------------------------------------------------
@@ -851,10 +856,18 @@ var opKinds = []string{
 	"save", "save", "save-new", "save-slice", "save-cond",
 	"updates-struct", "updates-struct", "updates-struct", "updates-map", "updates-map", "updates-map",
 	"update", "update", "updatecolumn", "updatecolumns-struct", "updatecolumns-map",
+	"firstorcreate", "firstorcreate", "firstorcreate-attrs", "firstorcreate-new",
+	// association mode: only for models with association fields (else another kind is drawn)
+	"assoc-append", "assoc-append", "assoc-append", "assoc-replace", "assoc-replace", "assoc-clear", "assoc-delete",
 }
+
+const nAssocKinds = 7
 
 func (g *gen) genOp(kind string) *op {
 	r, m := g.r, g.m
+	if strings.HasPrefix(kind, "assoc-") && len(m.rels) == 0 {
+		kind = core.Pick(r, opKinds[:len(opKinds)-nAssocKinds])
+	}
 	o := &op{kind: kind, forms: map[string]bool{}}
 	g.n = r.Range(3, 60)
 	nonzeroFields := func(rc *rec) []int {
@@ -1083,6 +1096,11 @@ func (g *gen) genOp(kind string) *op {
 		o.recs = []*rec{rc}
 		g.selOmit(o, []string{"none", "none", "none", "none", "sel", "omit", "star"}, []int{f.idx})
 		g.target(o, false, false)
+	case "firstorcreate", "firstorcreate-attrs", "firstorcreate-new":
+		g.genFoc(o, kind)
+	case "assoc-append", "assoc-replace", "assoc-clear", "assoc-delete":
+		g.genAssoc(o, kind)
+		return o
 	default:
 		panic("kind " + kind)
 	}
@@ -1114,10 +1132,13 @@ func (g *gen) genOp(kind string) *op {
 			o.next = g.followUpCreate(o)
 		}
 	}
+	// one chain in four does not name the table: it is the one of the model's schema
+	o.noTable = r.Chance(1, 4)
 	// the chain calls commute: one operation in three runs them in a random order
 	if r.Chance(1, 3) {
-		o.chainOrder = r.Perm(5)
-		present := []bool{o.useModel, len(o.conds) > 0, len(o.sel) > 0, len(o.omit) > 0, strings.HasPrefix(kind, "upsert-") || o.returning != ""}
+		o.chainOrder = r.Perm(7)
+		present := []bool{o.useModel, len(o.conds) > 0 && !(o.foc != nil && o.foc.inline), len(o.sel) > 0, len(o.omit) > 0, strings.HasPrefix(kind, "upsert-") || o.returning != "",
+			o.foc != nil && o.foc.attrs != nil, o.foc != nil && o.foc.assign != nil}
 		last := -1
 		for _, i := range o.chainOrder {
 			if present[i] {
@@ -1334,8 +1355,15 @@ func quoteAll(ns []string) string {
 // exec runs the operation through gorm and returns the literal calls (an optional declaration, the
 // chain, the finisher), the handle the finisher was called on and the result.
 func exec(db *gorm.DB, m *model, o *op) (pre, chain, fin string, handle, res *gorm.DB) {
-	tx := db.Table(m.table)
-	desc := fmt.Sprintf("db.Table(%q)", m.table)
+	if o.assoc != nil {
+		desc, err := execAssoc(db, m, o)
+		return "", desc, "", db, &gorm.DB{Error: err}
+	}
+	tx, desc := db, "db"
+	if !o.noTable {
+		tx = db.Table(m.table)
+		desc = fmt.Sprintf("db.Table(%q)", m.table)
+	}
 	var selfPtr reflect.Value
 	var selfLit string
 	if o.valueIsModel {
@@ -1354,6 +1382,9 @@ func exec(db *gorm.DB, m *model, o *op) (pre, chain, fin string, handle, res *go
 		func() { // Model
 			if o.useModel {
 				switch {
+				case o.foc != nil:
+					tx = tx.Model(reflect.New(m.typ).Interface())
+					desc += ".Model(&T{})"
 				case o.valueIsModel:
 					tx = tx.Model(selfPtr.Interface())
 					desc += ".Model(v)"
@@ -1383,6 +1414,9 @@ func exec(db *gorm.DB, m *model, o *op) (pre, chain, fin string, handle, res *go
 			}
 		},
 		func() { // Where
+			if o.foc != nil && o.foc.inline {
+				return
+			}
 			for _, c := range o.conds {
 				tx = tx.Where(c.gq, c.gargs...)
 				desc += "." + c.desc
@@ -1476,9 +1510,24 @@ func exec(db *gorm.DB, m *model, o *op) (pre, chain, fin string, handle, res *go
 			}
 		},
 	}
+	steps = append(steps,
+		func() { // Attrs
+			if o.foc != nil && o.foc.attrs != nil {
+				v, lit := focArg(m, o.foc.attrs, o.foc.attrsMap, o.foc.attrsPtr)
+				tx = tx.Attrs(v)
+				desc += ".Attrs(" + lit + ")"
+			}
+		},
+		func() { // Assign
+			if o.foc != nil && o.foc.assign != nil {
+				v, lit := focArg(m, o.foc.assign, o.foc.assignMap, o.foc.assignPtr)
+				tx = tx.Assign(v)
+				desc += ".Assign(" + lit + ")"
+			}
+		})
 	order := o.chainOrder
 	if len(order) != len(steps) {
-		order = []int{0, 1, 2, 3, 4}
+		order = []int{0, 1, 2, 3, 4, 5, 6}
 	}
 	for _, i := range order {
 		steps[i]()
@@ -1497,6 +1546,16 @@ func finish(tx *gorm.DB, m *model, o *op, selfPtr reflect.Value, selfLit string)
 		return m.sliceOf(o.recs, o.elemPtr)
 	}
 	switch o.kind {
+	case "firstorcreate", "firstorcreate-attrs", "firstorcreate-new":
+		d, lit := focDest(m, o)
+		if o.foc.inline {
+			c := o.conds[0]
+			res = tx.FirstOrCreate(d.Interface(), append([]interface{}{c.gq}, c.gargs...)...)
+			desc += ".FirstOrCreate(" + lit + ", " + strings.TrimSuffix(strings.TrimPrefix(c.desc, "Where("), ")") + ")"
+		} else {
+			res = tx.FirstOrCreate(d.Interface())
+			desc += ".FirstOrCreate(" + lit + ")"
+		}
 	case "create", "create-slice", "upsert-cols", "upsert-assign", "upsert-all", "upsert-nothing":
 		v, lit := structArg()
 		res = tx.Create(v)
